@@ -137,10 +137,20 @@ def makeTraitFnSig (sig : Sig) (subAttrs : List Attr) (opts : Opts) : Sig :=
     { sig with async_ := false, output := some (i "impl" :: joinSep [p '+'] bounds) }
   else sig
 
+/-- a restriction relative to the module outside (`pub(self)`, `pub(super)`, `pub(in self..)`,
+    `pub(in super..)`) re-based one module level further in; anything else is kept -/
+def rebaseVis : Toks → Toks
+  | [.ident "pub", .group .paren [.ident "self"]] => [i "pub", parens [i "in", i "super"]]
+  | [.ident "pub", .group .paren [.ident "super"]] => [i "pub", parens ([i "in", i "super"] ++ pathSep ++ [i "super"])]
+  | [.ident "pub", .group .paren (.ident "in" :: .ident "self" :: rest)] => [i "pub", parens (i "in" :: i "super" :: rest)]
+  | [.ident "pub", .group .paren (.ident "in" :: .ident "super" :: rest)] =>
+      [i "pub", parens ([i "in", i "super"] ++ pathSep ++ (i "super" :: rest))]
+  | vis => vis
+
 /-- `TraitVisibility` -/
 def traitVisibility (mode : InputMode) (vis : Toks) : Toks :=
   match mode with
-  | .module | .implBlock => if vis.isEmpty then [i "pub", parens [i "super"]] else vis
+  | .module | .implBlock => if vis.isEmpty then [i "pub", parens [i "super"]] else rebaseVis vis
   | .singleFn | .rawTrait => vis
 
 structure Supertraits where
